@@ -25,8 +25,8 @@ import os
 
 TABLE = os.path.join(os.path.dirname(__file__), "local_names.json")
 _FUNCS = (ast.FunctionDef, ast.AsyncFunctionDef)
-_NEG = {ast.Eq: ast.NotEq, ast.NotEq: ast.Eq, ast.Lt: ast.GtE, ast.GtE: ast.Lt, ast.Gt: ast.LtE, ast.LtE: ast.Gt,
-        ast.Is: ast.IsNot, ast.IsNot: ast.Is, ast.In: ast.NotIn, ast.NotIn: ast.In}
+# `not (a < b)` is NOT `a >= b` (NaN, sets, any partial order), so ordering comparisons are never negated by rewriting the operator
+_NEG = {ast.Eq: ast.NotEq, ast.NotEq: ast.Eq, ast.Is: ast.IsNot, ast.IsNot: ast.Is, ast.In: ast.NotIn, ast.NotIn: ast.In}
 
 _ref = None
 
@@ -205,6 +205,7 @@ class _Guards:
         self.raw = raw or {}
         self.known_ifelse = set(known_ifelse)
         self.n = 0
+        self.cleanups = 0  # trailing `continue` / `return` removed: done on every tree, the reference included
 
     def neg(self, test):
         """the negated test, written the way the reference wrote it when it knows it"""
@@ -220,7 +221,7 @@ class _Guards:
         for n in ast.walk(fn):
             if isinstance(n, (ast.For, ast.AsyncFor, ast.While)):
                 self._drop_trailing(n.body, "continue")
-        if self.n:
+        if self.n or self.cleanups:
             ast.fix_missing_locations(fn)
 
     def _drop_trailing_return(self, block):
@@ -241,11 +242,11 @@ class _Guards:
         last = block[-1]
         if _is_bare(last, kind) and len(block) > 1:
             block.pop()
-            self.n += 1
+            self.cleanups += 1
             self._drop_trailing(block, kind)
         elif _is_bare(last, kind) and len(block) == 1:
             block[0] = ast.copy_location(ast.Pass(), last)  # `else: continue` in tail position does nothing
-            self.n += 1
+            self.cleanups += 1
         elif isinstance(last, ast.If):
             self._drop_trailing(last.body, kind)
             self._drop_trailing(last.orelse, kind)
@@ -357,6 +358,25 @@ class _Guards:
                     self.n += 1
                     changed = True
                     break
+        # G5: an if/else in tail position whose test the reference knows only as a plain `if` (a guard clause there):
+        #     `if T: A else: B`  ->  `if T: A; return|continue` + B   (or with the negated test, whichever the reference has)
+        if kind is not None and block and isinstance(block[-1], ast.If) and block[-1].orelse and not (kind == "return" and False):
+            s = block[-1]
+            t_pos, t_neg = nnf_text(s.test), nnf_text(s.test, True)
+            if t_pos not in self.known_ifelse and t_neg not in self.known_ifelse \
+                    and not (len(s.orelse) == 1 and isinstance(s.orelse[0], ast.If)) \
+                    and not any(isinstance(x, ast.NamedExpr) for x in ast.walk(s.test)):
+                term = ast.Continue() if kind == "continue" else ast.Return(value=None)
+                if t_pos in self.known:
+                    first, rest, test = s.body, s.orelse, s.test
+                elif t_neg in self.known:
+                    first, rest, test = s.orelse, s.body, self.neg(s.test)
+                else:
+                    first = None
+                if first is not None:
+                    guard_body = list(first) + ([] if _terminal(first) else [ast.copy_location(term, s)])
+                    block[-1:] = [ast.copy_location(ast.If(test=test, body=guard_body, orelse=[]), s)] + list(rest)
+                    self.n += 1
         self._merge_split(block)
 
     def _merge_split(self, block):
@@ -388,6 +408,21 @@ def _pure_arg(e) -> bool:
     if isinstance(e, ast.Subscript):
         return _pure_arg(e.value) and _pure_arg(e.slice)
     return False
+
+
+def _helper_is_pure(fn) -> bool:
+    """the helper only computes: no call (other than a few total builtins), await, yield, attribute / item store or delete -
+    so an attribute or item passed as an argument has the same value wherever the helper reads its parameter"""
+    for n in _walk_no_defs(fn):
+        if n is fn:
+            continue
+        if isinstance(n, (ast.Await, ast.Yield, ast.YieldFrom, ast.Delete, ast.Global, ast.Nonlocal, ast.With, ast.AsyncWith, ast.NamedExpr)):
+            return False
+        if isinstance(n, ast.Call) and not (isinstance(n.func, ast.Name) and n.func.id in _STABLE_BUILTINS and not n.keywords):
+            return False
+        if isinstance(n, (ast.Attribute, ast.Subscript)) and isinstance(n.ctx, (ast.Store, ast.Del)):
+            return False
+    return not any(isinstance(c, _FUNCS + (ast.ClassDef, ast.Lambda)) for c in ast.walk(fn) if c is not fn)
 
 
 def _tail_returns_only(body) -> bool:
@@ -470,12 +505,98 @@ def _callee_key(call: ast.Call, cls_prefix: str, scope_prefix: str):
     return []
 
 
+def _const_truth(e):
+    """truth value of a test made of constants only (`None is not None`, `'abort' is not None`, `not False`, a bare constant)"""
+    if isinstance(e, ast.Constant):
+        return bool(e.value)
+    if isinstance(e, ast.UnaryOp) and isinstance(e.op, ast.Not):
+        v = _const_truth(e.operand)
+        return None if v is None else not v
+    if isinstance(e, ast.Compare) and len(e.ops) == 1 and isinstance(e.left, ast.Constant) and isinstance(e.comparators[0], ast.Constant):
+        a, b, op = e.left.value, e.comparators[0].value, e.ops[0]
+        if isinstance(op, (ast.Is, ast.IsNot)) and (a is None or b is None or isinstance(a, bool) or isinstance(b, bool)):
+            same = (a is b) if (a is None or b is None or (isinstance(a, bool) and isinstance(b, bool))) else False
+            return same if isinstance(op, ast.Is) else not same
+        if isinstance(op, (ast.Eq, ast.NotEq)) and type(a) is type(b) and isinstance(a, (str, int, bool, type(None))):
+            return (a == b) if isinstance(op, ast.Eq) else (a != b)
+    return None
+
+
+class _FoldConstantTests(ast.NodeTransformer):
+    """after a literal argument was substituted for a parameter: `if None is not None: A else: B` is B"""
+
+    def visit_If(self, node):
+        self.generic_visit(node)
+        v = _const_truth(node.test)
+        if v is None:
+            return node
+        taken = node.body if v else node.orelse
+        return taken if taken else ast.copy_location(ast.Pass(), node)
+
+    def visit_IfExp(self, node):
+        self.generic_visit(node)
+        v = _const_truth(node.test)
+        if v is None:
+            return node
+        return node.body if v else node.orelse
+
+
+class _FlattenBoolOps(ast.NodeTransformer):
+    """`a and (b and c)` is `a and b and c` (same operands evaluated in the same order, same result)"""
+
+    def visit_BoolOp(self, node):
+        self.generic_visit(node)
+        vals = []
+        for v in node.values:
+            if isinstance(v, ast.BoolOp) and type(v.op) is type(node.op):
+                vals.extend(v.values)
+            else:
+                vals.append(v)
+        node.values = vals
+        return node
+
+
+def _predicate_expression(body):
+    """[`if c: return <True|False>`]+ `return e`  ->  an expression with the same truth value, or None"""
+    if len(body) < 2 or not isinstance(body[-1], ast.Return) or body[-1].value is None:
+        return None
+    # a search loop: `for t in it: if c: return True` + `return False` is any(c for t in it) (and the dual is all(...))
+    if len(body) == 2 and isinstance(body[0], ast.For) and not body[0].orelse and len(body[0].body) == 1 and isinstance(body[0].body[0], ast.If) \
+            and not body[0].body[0].orelse and len(body[0].body[0].body) == 1 and isinstance(body[0].body[0].body[0], ast.Return) \
+            and isinstance(body[0].body[0].body[0].value, ast.Constant) and isinstance(body[0].body[0].body[0].value.value, bool) \
+            and isinstance(body[1].value, ast.Constant) and isinstance(body[1].value.value, bool) \
+            and body[0].body[0].body[0].value.value is not body[1].value.value \
+            and not any(isinstance(x, (ast.NamedExpr, ast.Await, ast.Yield, ast.YieldFrom)) for x in ast.walk(body[0])):
+        lp, found = body[0], body[0].body[0].body[0].value.value
+        cond = copy.deepcopy(lp.body[0].test)
+        gen = ast.comprehension(target=copy.deepcopy(lp.target), iter=copy.deepcopy(lp.iter), ifs=[], is_async=0)
+        if found:
+            e = ast.Call(func=ast.Name(id="any", ctx=ast.Load()), args=[ast.GeneratorExp(elt=cond, generators=[gen])], keywords=[])
+        else:
+            e = ast.Call(func=ast.Name(id="all", ctx=ast.Load()), args=[ast.GeneratorExp(elt=nnf(cond, True), generators=[gen])], keywords=[])
+        return ast.fix_missing_locations(e)
+    guards = body[:-1]
+    for g in guards:
+        if not (isinstance(g, ast.If) and not g.orelse and len(g.body) == 1 and isinstance(g.body[0], ast.Return)
+                and isinstance(g.body[0].value, ast.Constant) and isinstance(g.body[0].value.value, bool)
+                and not any(isinstance(x, (ast.NamedExpr, ast.Await, ast.Yield, ast.YieldFrom)) for x in ast.walk(g.test))):
+            return None
+    e = copy.deepcopy(body[-1].value)
+    for g in reversed(guards):
+        if g.body[0].value.value is False:
+            e = ast.BoolOp(op=ast.And(), values=[nnf(copy.deepcopy(g.test), True), e])
+        else:
+            e = ast.BoolOp(op=ast.Or(), values=[copy.deepcopy(g.test), e])
+    return ast.fix_missing_locations(_FlattenBoolOps().visit(e))
+
+
 class Inliner:
     def __init__(self, tree: ast.Module, known_functions: set[str]):
         self.tree = tree
         self.known = known_functions
         self.n = 0
         self.uid = 0
+        self.truth_only = set()
 
     def helpers(self):
         out = {}
@@ -492,7 +613,7 @@ class Inliner:
             if any(d not in ("staticmethod",) for d in decos):
                 continue
             a = fn.args
-            if a.vararg or a.kwarg or a.kwonlyargs or a.posonlyargs:
+            if a.vararg or a.kwarg or a.posonlyargs:
                 continue
             if any(isinstance(n, ast.Call) and isinstance(n.func, (ast.Name, ast.Attribute)) and (getattr(n.func, "id", None) == fn.name or getattr(n.func, "attr", None) == fn.name)
                    for n in ast.walk(fn)):
@@ -500,6 +621,13 @@ class Inliner:
             if any(isinstance(n, (ast.Global, ast.Nonlocal)) for n in ast.walk(fn)):
                 continue
             body = [s for s in fn.body if not (isinstance(s, ast.Expr) and isinstance(s.value, ast.Constant))]
+            # a predicate written as guard clauses - `if c1: return False` ... `return e` - is the expression `not c1 and ... and e`
+            # (`if c: return True` gives `c or ...`) as far as its truth value goes; such a helper is inlined in test positions only
+            pred = _predicate_expression(body)
+            if pred is not None:
+                out[q] = (fn, [ast.Return(value=pred)], "staticmethod" in decos)
+                self.truth_only.add(q)
+                continue
             body = _elseify(copy.deepcopy(body))
             if not _tail_returns_only(body):
                 continue
@@ -524,6 +652,8 @@ class Inliner:
             if self.n == before:
                 break
         if self.n:
+            _FoldConstantTests().visit(self.tree)
+            _FlattenBoolOps().visit(self.tree)
             ast.fix_missing_locations(self.tree)
         return self.n
 
@@ -563,6 +693,8 @@ class Inliner:
     # -- per function
     def _lookup(self, call, cls_prefix, scope_prefix, hs):
         # nested helper defined in this function, module-level helper, or method of the same class
+        if isinstance(call.func, ast.Name) and call.func.id in getattr(self, "_shadowed", ()):
+            return None  # the caller binds that name itself (parameter, assignment, loop target ...): not the helper
         for k in _callee_key(call, cls_prefix, scope_prefix):
             if k in hs:
                 return k
@@ -577,40 +709,55 @@ class Inliner:
         else:
             selfmap = {}
         defaults = fn.args.defaults
+        kwonly = [a.arg for a in fn.args.kwonlyargs]
+        kwdefaults = {a.arg: d for a, d in zip(fn.args.kwonlyargs, fn.args.kw_defaults) if d is not None}
+        # a default is evaluated when the helper is defined, not when it is called: only literal defaults can be copied to the call
+        if any(not _literal(d) for d in list(defaults) + list(kwdefaults.values())):
+            return None
         dmap = dict(zip(params[len(params) - len(defaults):], defaults)) if defaults else {}
+        dmap.update(kwdefaults)
         given = {}
+        order = []
         if len(call.args) > len(params) or any(isinstance(a, ast.Starred) for a in call.args):
             return None
         for p, a in zip(params, call.args):
             given[p] = a
+            order.append(p)
+        params = params + kwonly
         for k in call.keywords:
             if k.arg is None or k.arg not in params or k.arg in given:
                 return None
             given[k.arg] = k.value
+            order.append(k.arg)
         for p in params:
             if p not in given:
                 if p in dmap:
                     given[p] = dmap[p]
+                    order.append(p)
                 else:
                     return None
         # parameters assigned inside the helper need a real local
         stored = {n.id for n in ast.walk(fn) if isinstance(n, ast.Name) and isinstance(n.ctx, (ast.Store, ast.Del))}
+        helper_pure = _helper_is_pure(fn)
         mapping = dict(selfmap)
         prelude = []
-        for p in params:
+        for p in order:  # in the order the call evaluates its arguments
             a = given[p]
-            if _pure_arg(a) and p not in stored:
+            by_name = isinstance(a, (ast.Name, ast.Constant)) or (helper_pure and _pure_arg(a))
+            if by_name and p not in stored:
                 mapping[p] = a
             else:
                 self.uid += 1
                 tmp = p if (p not in caller_names) else f"{p}_inl{self.uid}"
                 prelude.append(ast.Assign(targets=[ast.Name(id=tmp, ctx=ast.Store())], value=a, lineno=call.lineno))
                 mapping[p] = tmp
+        arg_names = {n.id for m in mapping.values() if isinstance(m, ast.AST) for n in ast.walk(m) if isinstance(n, ast.Name)}
         # the helper's locals keep their names unless that could disturb the caller: a caller's variable of the same name may be
         # overwritten only if the caller never reads it again after the call (and the call is not inside a loop that reads it)
         locals_ = {n.id for n in ast.walk(fn) if isinstance(n, ast.Name) and isinstance(n.ctx, ast.Store)} - set(params)
         for v in locals_:
-            if v in caller_names and not self._dead_after(v, call):
+            # (a local of the helper must never capture a name that an argument expression mentions)
+            if v in arg_names or (v in caller_names and not self._dead_after(v, call)):
                 self.uid += 1
                 mapping[v] = f"{v}_inl{self.uid}"
         return prelude, mapping
@@ -645,6 +792,8 @@ class Inliner:
 
     def _inline_in_function(self, caller, cls_prefix, scope_prefix, hs):
         self._caller = caller
+        self._shadowed = {a.arg for a in ast.walk(caller) if isinstance(a, ast.arg)} | \
+            {n.id for n in ast.walk(caller) if isinstance(n, ast.Name) and isinstance(n.ctx, (ast.Store, ast.Del))}
         caller_names = {n.id for n in ast.walk(caller) if isinstance(n, ast.Name)} | {a.arg for a in ast.walk(caller) if isinstance(a, ast.arg)}
 
         def expand(stmt):
@@ -689,9 +838,29 @@ class Inliner:
                         return [ast.copy_location(x, stmt) if not hasattr(x, "lineno") else x for x in prelude + new_body] or [ast.copy_location(ast.Pass(), stmt)]
             return None
 
-        def single_expr_helpers(node):
+        def single_expr_helpers(node, is_test=False):
             """calls to helpers whose body is one `return expr` are replaced inside expressions; multi-statement straight-line
             helpers used once in a simple statement are hoisted in front of it"""
+            in_test = set()
+
+            def mark(e, t):
+                if t:
+                    in_test.add(id(e))
+                if isinstance(e, ast.BoolOp):
+                    for v in e.values:
+                        mark(v, t)
+                elif isinstance(e, ast.UnaryOp) and isinstance(e.op, ast.Not):
+                    mark(e.operand, True)
+                elif isinstance(e, ast.IfExp):
+                    mark(e.test, True)
+                    mark(e.body, t)
+                    mark(e.orelse, t)
+                else:
+                    for c in ast.iter_child_nodes(e):
+                        if isinstance(c, ast.expr):
+                            mark(c, False)
+            mark(node, is_test)
+
             class T(ast.NodeTransformer):
                 def __init__(s2):
                     s2.changed = 0
@@ -706,6 +875,8 @@ class Inliner:
                     k = self._lookup(n, cls_prefix, scope_prefix, hs)
                     if k is None:
                         return n
+                    if k in self.truth_only and id(n) not in in_test:
+                        return n
                     fn, body, is_static = hs[k]
                     if isinstance(fn, ast.AsyncFunctionDef) or any(isinstance(x, (ast.Yield, ast.YieldFrom)) for x in _walk_no_defs(fn)):
                         return n
@@ -718,17 +889,20 @@ class Inliner:
                         return ast.copy_location(_Renamer(b[1]).visit(copy.deepcopy(body[0].value)), n)
                     return n
             t = T()
-            t.visit(node)
-            return t.changed
+            return t.visit(node)
 
         def hoist(stmt):
             """stmt contains exactly one call to a straight-line helper (defs / assignments then `return expr`)"""
-            if not isinstance(stmt, (ast.Expr, ast.Assign, ast.Return, ast.AugAssign)):
+            if not isinstance(stmt, (ast.Expr, ast.Assign, ast.Return)):
                 return None
             calls = [n for n in _walk_no_defs(stmt) if isinstance(n, ast.Call) and self._lookup(n, cls_prefix, scope_prefix, hs) is not None]
             if len(calls) != 1:
                 return None
             call = calls[0]
+            # the helper's statements are moved in front of the statement: nothing of the statement with an effect may be
+            # evaluated before the call (and the call's own arguments must be effect-free)
+            if not _used_before_any_effect(stmt, call):
+                return None
             fn, body, is_static = hs[self._lookup(call, cls_prefix, scope_prefix, hs)]
             if isinstance(fn, ast.AsyncFunctionDef) or any(isinstance(x, (ast.Yield, ast.YieldFrom)) for x in _walk_no_defs(fn)):
                 return None
@@ -776,7 +950,7 @@ class Inliner:
                 for fld in ("test", "iter", "value", "exc"):
                     e = getattr(s, fld, None)
                     if isinstance(e, ast.AST):
-                        single_expr_helpers(e)
+                        setattr(s, fld, single_expr_helpers(e, is_test=(fld == "test")))
                 i += 1
         walk_block(caller.body)
 
@@ -829,6 +1003,115 @@ def _used_before_any_effect(stmt, load) -> bool:
     return False
 
 
+_EFFECT = (ast.Call, ast.Await, ast.Yield, ast.YieldFrom, ast.NamedExpr)
+
+
+def _has_effect(stmt) -> bool:
+    return any(isinstance(n, _EFFECT) and not (isinstance(n, ast.Call) and isinstance(n.func, ast.Name) and n.func.id in _STABLE_BUILTINS and not n.keywords)
+               for n in ast.walk(stmt))
+
+
+def _is_effect(n) -> bool:
+    if isinstance(n, ast.Call):
+        return not (isinstance(n.func, ast.Name) and n.func.id in _STABLE_BUILTINS and not n.keywords)
+    return isinstance(n, (ast.Await, ast.Yield, ast.YieldFrom, ast.NamedExpr, ast.Lambda, ast.ListComp, ast.SetComp, ast.DictComp, ast.GeneratorExp))
+
+
+def _reads_before_effects(stmts, v) -> bool:
+    """Along every path through ``stmts`` the name ``v`` is only read while nothing with an effect (a call, await, yield ...)
+    has been evaluated yet (so a value read from the heap before ``stmts`` is still the value the heap holds at each read)."""
+    def expr(e, eff):
+        ok = True
+        for n in _eval_order(e):
+            if isinstance(n, ast.Name) and n.id == v and isinstance(n.ctx, ast.Load):
+                if eff:
+                    ok = False
+            elif _is_effect(n):
+                if any(isinstance(x, ast.Name) and x.id == v for x in ast.walk(n)) and isinstance(n, (ast.Lambda, ast.ListComp, ast.SetComp, ast.DictComp, ast.GeneratorExp)):
+                    ok = False
+                eff = True
+        return ok, eff
+
+    def block(bl, eff):
+        ok = True
+        for st in bl:
+            if isinstance(st, (ast.Assign, ast.AnnAssign, ast.AugAssign, ast.Expr, ast.Return, ast.Raise, ast.Assert, ast.Delete)):
+                parts = []
+                if isinstance(st, ast.AugAssign):
+                    parts = [st.target, st.value]
+                elif isinstance(st, ast.Assign):
+                    parts = [st.value] + list(st.targets)
+                elif isinstance(st, ast.AnnAssign):
+                    parts = [x for x in (st.value, st.target) if x is not None]
+                elif isinstance(st, ast.Raise):
+                    parts = [x for x in (st.exc, st.cause) if x is not None]
+                elif isinstance(st, ast.Assert):
+                    parts = [x for x in (st.test, st.msg) if x is not None]
+                elif isinstance(st, ast.Delete):
+                    parts = list(st.targets)
+                elif st.value is not None:
+                    parts = [st.value]
+                for e in parts:
+                    o, eff = expr(e, eff)
+                    ok = ok and o
+                    if isinstance(e, (ast.Attribute, ast.Subscript)) and isinstance(getattr(e, "ctx", None), (ast.Store, ast.Del)):
+                        eff = True  # a property setter / __setitem__ / __delitem__ may run
+            elif isinstance(st, ast.If):
+                o, eff = expr(st.test, eff)
+                o1, e1 = block(st.body, eff)
+                o2, e2 = block(st.orelse, eff)
+                ok, eff = ok and o and o1 and o2, e1 or e2
+            elif isinstance(st, (ast.While, ast.For, ast.AsyncFor)):
+                hdr = st.test if isinstance(st, ast.While) else st.iter
+                o, eff = expr(hdr, eff)
+                if not isinstance(st, ast.While):
+                    eff = True  # iteration calls __iter__ / __next__
+                o1, e1 = block(st.body, eff)
+                o1b, _ = block(st.body, e1)       # second iteration
+                oh, _ = expr(hdr, e1) if isinstance(st, ast.While) else (True, e1)
+                o2, e2 = block(st.orelse, e1)
+                ok, eff = ok and o and o1 and o1b and oh and o2, e1 or e2
+            elif isinstance(st, (ast.With, ast.AsyncWith)):
+                for it in st.items:
+                    o, eff = expr(it.context_expr, eff)
+                    ok = ok and o
+                    nm = ast.unparse(it.context_expr).lower()
+                    if not (isinstance(it.context_expr, (ast.Name, ast.Attribute)) and nm.endswith("lock")):
+                        eff = True  # __enter__ of anything that is not plainly a lock
+                o1, eff = block(st.body, eff)
+                ok = ok and o1
+            elif isinstance(st, ast.Try):
+                o1, e1 = block(st.body, eff)
+                ok = ok and o1
+                for h in st.handlers:
+                    oh, _ = block(h.body, True)
+                    ok = ok and oh
+                o2, e2 = block(st.orelse, e1)
+                o3, _ = block(st.finalbody, True)
+                ok, eff = ok and o2 and o3, True
+            elif isinstance(st, (ast.Pass, ast.Break, ast.Continue, ast.Import, ast.ImportFrom, ast.Global, ast.Nonlocal)):
+                pass
+            else:
+                if any(isinstance(x, ast.Name) and x.id == v for x in ast.walk(st)):
+                    ok = False
+                eff = True
+        return ok, eff
+    return block(list(stmts), False)[0]
+
+
+def _in_header_before_effect(stmt, load) -> bool:
+    """the load is in the test of an if / while (or the iterable of a for) and nothing with an effect is evaluated before it"""
+    hdr = stmt.test if isinstance(stmt, (ast.If, ast.While)) else stmt.iter if isinstance(stmt, (ast.For, ast.AsyncFor)) else None
+    if hdr is None:
+        return False
+    for n in _eval_order(hdr):
+        if n is load:
+            return True
+        if isinstance(n, _EFFECT + (ast.Lambda, ast.ListComp, ast.SetComp, ast.DictComp, ast.GeneratorExp)):
+            return False
+    return False
+
+
 def _whole_value(stmt, load) -> bool:
     """the load is the entire value of the statement (possibly under one await / yield from)"""
     v = getattr(stmt, "value", None)
@@ -836,6 +1119,16 @@ def _whole_value(stmt, load) -> bool:
         if v is load:
             return True
         if isinstance(v, (ast.Await, ast.YieldFrom)) and v.value is load:
+            return True
+    return False
+
+
+def _rebinds(stmt, v) -> bool:
+    """the statement (anywhere inside it: a loop body, a branch, a walrus, a with/for/except target) binds the name again"""
+    for n in ast.walk(stmt):
+        if isinstance(n, ast.Name) and n.id == v and isinstance(n.ctx, (ast.Store, ast.Del)):
+            return True
+        if isinstance(n, ast.ExceptHandler) and n.name == v:
             return True
     return False
 
@@ -878,7 +1171,12 @@ def substitute_new_temporaries(fn, known_locals: set[str]) -> int:
                         stores_a = [n for n in ast.walk(fn) if isinstance(n, ast.Name) and n.id == a and isinstance(n.ctx, (ast.Store, ast.Del))]
                         uses_a_before = [n for n in ast.walk(fn) if isinstance(n, ast.Name) and n.id == a and n is not st.targets[0] and getattr(n, "lineno", 0) < st.lineno]
                         is_param = any(x.arg == b for x in ast.walk(fn) if isinstance(x, ast.arg))
-                        if len(stores_a) == 1 and not uses_a_before and not is_param:
+                        # the alias stands for b's value at this point: b must not be bound again afterwards, nor around (a loop)
+                        stores_b = [n for n in ast.walk(fn) if isinstance(n, ast.Name) and n.id == b and isinstance(n.ctx, (ast.Store, ast.Del))]
+                        in_loop = any(isinstance(lp, (ast.For, ast.AsyncFor, ast.While)) and any(x is st for x in ast.walk(lp)) for lp in ast.walk(fn))
+                        b_stable = all(getattr(n, "lineno", 0) < st.lineno for n in stores_b) and (not in_loop or len(stores_b) <= 1) and \
+                            not any(isinstance(h, ast.ExceptHandler) and h.name == b for h in ast.walk(fn))
+                        if len(stores_a) == 1 and not uses_a_before and not is_param and b_stable:
                             for n in ast.walk(fn):
                                 if isinstance(n, ast.Name) and n.id == b:
                                     n.id = a
@@ -909,7 +1207,7 @@ def substitute_new_temporaries(fn, known_locals: set[str]) -> int:
                             continue
                         region = []
                         for stj in block[i + 1:]:
-                            if isinstance(stj, ast.Assign) and any(isinstance(t, ast.Name) and t.id == v for t in stj.targets):
+                            if _rebinds(stj, v):
                                 break
                             region.append(stj)
                         region_loads = [ld for stj in region for ld in _loads(stj, v)]
@@ -923,7 +1221,7 @@ def substitute_new_temporaries(fn, known_locals: set[str]) -> int:
                                         if isinstance(s2, ast.Assign) and len(s2.targets) == 1 and isinstance(s2.targets[0], ast.Name) and s2.targets[0].id == v:
                                             reg2 = []
                                             for s3 in b2[k2 + 1:]:
-                                                if isinstance(s3, ast.Assign) and any(isinstance(t, ast.Name) and t.id == v for t in s3.targets):
+                                                if _rebinds(s3, v):
                                                     break
                                                 reg2.append(s3)
                                             total += sum(len(_loads(s3, v)) for s3 in reg2)
@@ -935,7 +1233,9 @@ def substitute_new_temporaries(fn, known_locals: set[str]) -> int:
                     nxt = block[i + 1]
                     in_next = _loads(nxt, v)
                     done = False
-                    if len(all_loads) == 1 and len(in_next) == 1 and (_whole_value(nxt, in_next[0]) or _pure(st.value) or _used_before_any_effect(nxt, in_next[0])) and not isinstance(nxt, _FUNCS):
+                    heap = any(isinstance(x, (ast.Attribute, ast.Subscript)) for x in ast.walk(st.value))
+                    if len(all_loads) == 1 and len(in_next) == 1 and (_whole_value(nxt, in_next[0]) or (_pure(st.value) and not heap) or _used_before_any_effect(nxt, in_next[0])
+                                                                        or (_pure(st.value) and _reads_before_effects([nxt], v))) and not isinstance(nxt, _FUNCS):
                         _replace_node(nxt, in_next[0], st.value)
                         done = True
                     elif _pure(st.value):
@@ -953,6 +1253,10 @@ def substitute_new_temporaries(fn, known_locals: set[str]) -> int:
                                     ok = False
                             seen += len(_loads(stj, v))
                             j += 1
+                        if ok and heap and not _reads_before_effects(block[i + 1:j], v):
+                            # the value reads an attribute / item, which any call in between could change: every use must come
+                            # before anything with an effect is evaluated on its path
+                            ok = False
                         if ok and seen == len(all_loads):
                             for stj in block[i + 1:j]:
                                 for ld in _loads(stj, v):
@@ -1000,6 +1304,69 @@ def normalise_module(tree: ast.Module, modname: str) -> dict:
     return stats
 
 
+def loops_to_comprehensions(fn, comp_locals: dict) -> int:
+    """`x = {}` + `for t in it: [if c:] x[k] = v` (also `[]` with append, `set()` with add) is the comprehension
+    `x = {k: v for t in it if c}` when the reference binds x by exactly that kind of comprehension, the loop variables are not
+    read outside the loop and nothing in the loop mentions x or suspends."""
+    n_done = 0
+    for node in list(_walk_no_defs(fn)):
+        for fld in ("body", "orelse", "finalbody"):
+            block = getattr(node, fld, None)
+            if not (isinstance(block, list) and block and isinstance(block[0], ast.stmt)):
+                continue
+            i = 0
+            while i + 1 < len(block):
+                a, lp = block[i], block[i + 1]
+                i += 1
+                if not (isinstance(a, ast.Assign) and len(a.targets) == 1 and isinstance(a.targets[0], ast.Name) and isinstance(lp, ast.For) and not lp.orelse):
+                    continue
+                x = a.targets[0].id
+                want = comp_locals.get(x)
+                empty = ast.unparse(a.value)
+                kind = {"{}": "DictComp", "dict()": "DictComp", "[]": "ListComp", "list()": "ListComp", "set()": "SetComp"}.get(empty)
+                if kind is None or want != kind:
+                    continue
+                conds, inner = [], lp.body
+                while len(inner) == 1 and isinstance(inner[0], ast.If) and not inner[0].orelse:
+                    conds.append(inner[0].test)
+                    inner = inner[0].body
+                if len(inner) != 1:
+                    continue
+                st = inner[0]
+                elt = None
+                if kind == "DictComp" and isinstance(st, ast.Assign) and len(st.targets) == 1 and isinstance(st.targets[0], ast.Subscript) \
+                        and isinstance(st.targets[0].value, ast.Name) and st.targets[0].value.id == x:
+                    elt = (st.targets[0].slice, st.value)
+                elif kind in ("ListComp", "SetComp") and isinstance(st, ast.Expr) and isinstance(st.value, ast.Call) and isinstance(st.value.func, ast.Attribute) \
+                        and isinstance(st.value.func.value, ast.Name) and st.value.func.value.id == x \
+                        and st.value.func.attr == ("append" if kind == "ListComp" else "add") and len(st.value.args) == 1 and not st.value.keywords:
+                    elt = (st.value.args[0],)
+                if elt is None:
+                    continue
+                parts = [lp.iter, *conds, *elt]
+                if any(isinstance(n, ast.Name) and n.id == x for e in parts for n in ast.walk(e)):
+                    continue
+                if any(isinstance(n, (ast.Await, ast.Yield, ast.YieldFrom, ast.NamedExpr)) for e in parts for n in ast.walk(e)):
+                    continue
+                loop_vars = {n.id for n in ast.walk(lp.target) if isinstance(n, ast.Name)}
+                inside = {id(n) for n in ast.walk(lp)}
+                if any(isinstance(n, ast.Name) and n.id in loop_vars and id(n) not in inside for n in ast.walk(fn)):
+                    continue
+                gen = ast.comprehension(target=lp.target, iter=lp.iter, ifs=list(conds), is_async=0)
+                if kind == "DictComp":
+                    comp = ast.DictComp(key=elt[0], value=elt[1], generators=[gen])
+                elif kind == "ListComp":
+                    comp = ast.ListComp(elt=elt[0], generators=[gen])
+                else:
+                    comp = ast.SetComp(elt=elt[0], generators=[gen])
+                a.value = comp
+                block.remove(lp)
+                n_done += 1
+    if n_done:
+        ast.fix_missing_locations(fn)
+    return n_done
+
+
 def normalise_temporaries(tree: ast.Module, modname: str) -> int:
     """phase 1b (after a first renaming pass, so that merely renamed locals are not mistaken for new temporaries)"""
     from . import alpha
@@ -1011,6 +1378,7 @@ def normalise_temporaries(tree: ast.Module, modname: str) -> int:
         if key not in r.get("if_tests", {}):
             continue
         params = {a.arg for a in ast.walk(fn) if isinstance(a, ast.arg)}
+        n += loops_to_comprehensions(fn, {x[0]: x[2] for x in locs.get(key, []) if x[1] == "Assign" and x[2] in ("DictComp", "ListComp", "SetComp")})
         n += substitute_new_temporaries(fn, {x[0] for x in locs.get(key, [])} | params)
     return n
 
